@@ -171,9 +171,9 @@ add("C11", "concurrency contract",
 
 add("C12", "server handshake",
     [H("vfH_upgrade_logic", ["upgrade-success", "upgrade-refused", "upgrade-post-hijack-failure"], 600), H("vfH_tokenlist_diff", ["tokenlist-end"], 300), H("vfH_key_diff", ["key-diff-end"], 300), H("vfH_offer_variants", ["offer-variants-end"], 300), TWIN("vfH_upgrade_logic")],
-    [H("vfH_upgrade_logic", ["upgrade-success", "upgrade-refused"], 3000, {"tier": 1}), H("vfH_tokenlist_diff", ["tokenlist-end"], 2400, {"tier": 1})],
+    [H("vfH_upgrade_logic", ["upgrade-success", "upgrade-refused"], 3000, {"tier": 1}), H("vfH_tokenlist_diff", ["tokenlist-end"], 1500, {"tier": 1, "mode": 0, "N": 5, "L2": 0}), H("vfH_tokenlist_diff", ["tokenlist-end"], 2000, {"tier": 1, "mode": 0, "N": 3, "L2": 2}), H("vfH_tokenlist_diff", ["tokenlist-end"], 1500, {"tier": 1, "mode": 1, "NEL": 2, "OWS": 3})],
     ["Upgrade executed on requests one (thorough: two) dimension(s) away from a valid handshake: method, Connection / Upgrade token lists (symbolic case and whitespace, extra tokens, several header lines, near-miss tokens), version, key (missing, 24 arbitrary characters, base64 of 15 / 17 bytes; valid keys = base64 of 16 symbolic bytes), origin, CheckOrigin, subprotocol offers x server lists, application response headers with 3 arbitrary bytes (incl. CR/LF), extension offers x EnableCompression, hijack failure, transport fault at each of the first 3 post-hijack operations, HandshakeTimeout on/off",
-     "tokenListContainsValue against the reference for every header line of <= 4 (thorough 6) arbitrary bytes and for grammar templates; isValidChallengeKey against the reference for every string of length 0,1,20,22,23,24,25,28 (real encoding/base64 decoder executed from SSA)"],
+     "tokenListContainsValue against the reference for every header line of <= 4 arbitrary bytes (thorough: <= 5 bytes on one line; <= 3 bytes plus a second line of <= 2 bytes) and for grammar templates of 1-2 list elements (the token in any case, near misses, another token) with 0-1 (thorough 0-2) symbolic white-space characters around the comma and an optional second line; in the two-dimension tier the valid default key is one fixed key; isValidChallengeKey against the reference for every string of length 0,1,20,22,23,24,25,28 (real encoding/base64 decoder executed from SSA)"],
     ["net/http's own request parsing, header canonicalisation and http.Error rendering (modelled at object level)", "SHA-1 is an uninterpreted function: that the digest input is key ++ the RFC GUID and its placement are checked, the hash itself is not", "requests more than two dimensions away from valid"],
     ["header values contain no CR/LF on the request side (net/http never delivers them)", "url.Parse answers as constructed for the template origins only"], STUB_COMMON + ["net/http ResponseWriter/Hijacker/ResponseController/Error -> recorder models (harness/models_http.go)", "crypto/sha1 -> uninterpreted function (congruent, collision-free)", "net/url.Parse -> answers from the harness's template knowledge"],
     LV + "Reduced scope: the decision logic and the response bytes of Upgrade; HTTP parsing is outside.",
